@@ -408,23 +408,50 @@ PartOK(c, r, v, pc, pr) ==
           /\ BagOf(pr.oe, DOMAIN pr.oe, LAMBDA e : <<pm[e.f], pm[e.t], e.ahs, [q \in DOMAIN e.pts |-> <<e.pts[q][1] + dx, e.pts[q][2]>>]>>)
              = LET ks == {k \in DOMAIN r.oe : r.oe[k].f \in Range(pm)} IN
                BagOf(r.oe, ks, LAMBDA e : <<e.f, e.t, e.ahs, e.pts>>)
+\* the same judgement for records that are NOT exact on the 1/64 grid (sizes off the binary grid, c.sden > 1: the union's
+\* coordinates are the part's plus a shift, rounded): the same nodes and sizes within the tolerance of the grid, and the same
+\* routes STRUCTURALLY - per edge (end nodes, flag) the same number of points, each within the tolerance
+PartOKApprox(c, r, v, pc, pr) ==
+    LET pv == View(pc, pr)
+        pm == pc.part
+        tol == 4
+    IN pv.ok =>
+       \E dx \in {Nd(r, v, pm[1]).x - Nd(pr, pv, 1).x} :
+          /\ \A j \in 1..pc.n :
+                LET a == Nd(pr, pv, j) b == Nd(r, v, pm[j]) IN
+                Abs(b.x - a.x - dx) <= tol /\ Abs(b.y - a.y) <= tol /\ Abs(b.w - a.w) <= tol /\ Abs(b.h - a.h) <= tol
+          /\ BagOf(pr.oe, DOMAIN pr.oe, LAMBDA e : <<pm[e.f], pm[e.t], e.ahs, Len(e.pts)>>)
+             = LET ks == {k \in DOMAIN r.oe : r.oe[k].f \in Range(pm)} IN
+               BagOf(r.oe, ks, LAMBDA e : <<e.f, e.t, e.ahs, Len(e.pts)>>)
+          \* edges that are the only one between their end nodes: point by point
+          /\ \A k \in DOMAIN pr.oe :
+                LET e == pr.oe[k]
+                    twins == {k2 \in DOMAIN pr.oe : pr.oe[k2].f = e.f /\ pr.oe[k2].t = e.t}
+                    img == {k2 \in DOMAIN r.oe : r.oe[k2].f = pm[e.f] /\ r.oe[k2].t = pm[e.t]}
+                IN (Cardinality(twins) = 1 /\ Cardinality(img) = 1) =>
+                     LET u == r.oe[CHOOSE k2 \in img : TRUE] IN
+                     Len(u.pts) = Len(e.pts) /\ \A q \in DOMAIN e.pts :
+                         Abs(u.pts[q][1] - e.pts[q][1] - dx) <= tol /\ Abs(u.pts[q][2] - e.pts[q][2]) <= tol
 \* the solo runs of ALL parts have returned (the parts partition the union's nodes) and their outputs are proper views
 AllPartsReturned(c, g) == LET ps == {g[k].c.part : k \in Parts(g)} IN
                           ps # {} /\ UNION {Range(pm) : pm \in ps} = 1..c.n
 PartsProper(g) == \A k \in Parts(g) : View(g[k].c, g[k].r).ok /\ EdgesMapped(g[k].c, g[k].r)
+C09_AllExact(r, g) == r.exact = 1 /\ \A k \in Parts(g) : g[k].r.exact = 1
 C09_Applies(c, r, v, g) == c.rel = "union" /\ Parts(g) # {} /\ StableParts(g)
-                           /\ r.exact = 1 /\ \A k \in Parts(g) : g[k].r.exact = 1
+                           /\ (C09_AllExact(r, g) \/ c.sden > 1)
                            /\ ((v.ok /\ EdgesMapped(c, r)) \/ (AllPartsReturned(c, g) /\ PartsProper(g)))
 C09_Fail(c, r, v, g) ==
     IF ~(v.ok /\ EdgesMapped(c, r))
     THEN {"ComponentIndependent"}       \* every part alone yields a proper drawing of its input, the union does not
     ELSE
-    If(\A k \in Parts(g) : PartOK(c, r, v, g[k].c, g[k].r), "ComponentIndependent")
-    \cup If(c.p4 \in SizeAware =>
+    If(\A k \in Parts(g) : IF C09_AllExact(r, g) THEN PartOK(c, r, v, g[k].c, g[k].r)
+                                                   ELSE PartOKApprox(c, r, v, g[k].c, g[k].r), "ComponentIndependent")
+    \* (the network-simplex positioner works on an integer grid: sizes and spacing range over integers for it, as in C04)
+    \cup If((c.p4 \in SizeAware /\ (c.p4 = "nspos" => c.sden = 1 /\ c.nsd = 1)) =>
               \A m1, m2 \in v.roots : m1 < m2 =>
                LET lo(m) == Min({Nd(r, v, i).x : i \in CompNodes(c, v, m)})
                    hi(m) == Max({Nd(r, v, i).x + Nd(r, v, i).w : i \in CompNodes(c, v, m)})
-               IN hi(m1) + NSq(c) <= lo(m2) \/ hi(m2) + NSq(c) <= lo(m1), "SideBySide")
+               IN hi(m1) + NSq(c) <= lo(m2) + Tol(r) \/ hi(m2) + NSq(c) <= lo(m1) + Tol(r), "SideBySide")
 C09_NonTrivial(c, r, v, g) == Cardinality(v.roots) >= 2 /\ c.n >= 4
 
 -----------------------------------------------------------------------------
